@@ -155,7 +155,7 @@ func resolveShim(w *World) *shimModel {
 				}
 			}
 			if fn.Blocks != nil && recvNamed(fn) == m.Server {
-				m.Methods[fn.Name()] = fn
+				m.Methods[fn.Name()] = w.unwrapObserver(fn)
 			}
 		}
 	}
